@@ -59,7 +59,7 @@ impl Prop for C10 {
         vec![("request-names-foreign-stored", 0.3), ("foreign-after-own", 0.08)]
     }
     fn release_fraction(&self, tier: Tier) -> f64 {
-        tier.pick(0.3, 0.5)
+        tier.pick(0.3, 0.1)
     }
     fn max_shrink_iters(&self) -> u32 {
         400
